@@ -4397,18 +4397,103 @@ let rec has_nonzero_digit = function
 | [] -> false
 | c::r -> (||) ((&&) (is_digit c) (negb ((=) c '0'))) (has_nonzero_digit r)
 
+(** val str_prefix : nat -> char list -> char list **)
+
+let rec str_prefix n0 s =
+  match n0 with
+  | O -> []
+  | S k -> (match s with
+            | [] -> []
+            | c::r -> c::(str_prefix k r))
+
 (** val nonzero_lit : sexpr -> bool **)
 
 let nonzero_lit = function
-| ENum s -> has_nonzero_digit s
-| ENeg a -> (match a with
-             | ENum s -> has_nonzero_digit s
-             | _ -> false)
+| ENum s ->
+  has_nonzero_digit
+    (str_prefix (S (S (S (S (S (S (S (S (S (S (S (S (S (S (S (S (S (S (S (S
+      (S (S (S (S (S (S (S (S (S (S (S (S (S (S (S (S (S (S (S (S (S (S (S (S
+      (S (S (S (S (S (S (S (S (S (S (S (S (S (S (S (S (S (S (S (S (S (S (S (S
+      (S (S (S (S (S (S (S (S (S (S (S (S (S (S (S (S (S (S (S (S (S (S (S (S
+      (S (S (S (S (S (S (S (S (S (S (S (S (S (S (S (S (S (S (S (S (S (S (S (S
+      (S (S (S (S (S (S (S (S (S (S (S (S (S (S (S (S (S (S (S (S (S (S (S (S
+      (S (S (S (S (S (S (S (S (S (S (S (S (S (S (S (S (S (S (S (S (S (S (S (S
+      (S (S (S (S (S (S (S (S (S (S (S (S (S (S (S (S (S (S (S (S (S (S (S (S
+      (S (S (S (S (S (S (S (S (S (S (S (S (S (S (S (S (S (S (S (S (S (S (S (S
+      (S (S (S (S (S (S (S (S (S (S (S (S (S (S (S (S (S (S (S (S (S (S (S (S
+      (S (S (S (S (S (S (S (S (S (S (S (S (S (S (S (S (S (S (S (S (S (S (S (S
+      (S (S (S (S (S (S (S (S (S (S (S (S (S (S (S (S (S (S (S (S (S (S (S (S
+      (S (S (S (S (S (S (S (S (S (S (S (S (S (S (S (S
+      O))))))))))))))))))))))))))))))))))))))))))))))))))))))))))))))))))))))))))))))))))))))))))))))))))))))))))))))))))))))))))))))))))))))))))))))))))))))))))))))))))))))))))))))))))))))))))))))))))))))))))))))))))))))))))))))))))))))))))))))))))))))))))))))))))))))))))))))))))))))))))))))))))))))))))))
+      s)
+| ENeg a ->
+  (match a with
+   | ENum s ->
+     has_nonzero_digit
+       (str_prefix (S (S (S (S (S (S (S (S (S (S (S (S (S (S (S (S (S (S (S
+         (S (S (S (S (S (S (S (S (S (S (S (S (S (S (S (S (S (S (S (S (S (S (S
+         (S (S (S (S (S (S (S (S (S (S (S (S (S (S (S (S (S (S (S (S (S (S (S
+         (S (S (S (S (S (S (S (S (S (S (S (S (S (S (S (S (S (S (S (S (S (S (S
+         (S (S (S (S (S (S (S (S (S (S (S (S (S (S (S (S (S (S (S (S (S (S (S
+         (S (S (S (S (S (S (S (S (S (S (S (S (S (S (S (S (S (S (S (S (S (S (S
+         (S (S (S (S (S (S (S (S (S (S (S (S (S (S (S (S (S (S (S (S (S (S (S
+         (S (S (S (S (S (S (S (S (S (S (S (S (S (S (S (S (S (S (S (S (S (S (S
+         (S (S (S (S (S (S (S (S (S (S (S (S (S (S (S (S (S (S (S (S (S (S (S
+         (S (S (S (S (S (S (S (S (S (S (S (S (S (S (S (S (S (S (S (S (S (S (S
+         (S (S (S (S (S (S (S (S (S (S (S (S (S (S (S (S (S (S (S (S (S (S (S
+         (S (S (S (S (S (S (S (S (S (S (S (S (S (S (S (S (S (S (S (S (S (S (S
+         (S (S (S (S (S (S (S (S (S (S (S (S (S (S (S (S (S (S (S (S (S (S (S
+         (S (S (S (S (S
+         O))))))))))))))))))))))))))))))))))))))))))))))))))))))))))))))))))))))))))))))))))))))))))))))))))))))))))))))))))))))))))))))))))))))))))))))))))))))))))))))))))))))))))))))))))))))))))))))))))))))))))))))))))))))))))))))))))))))))))))))))))))))))))))))))))))))))))))))))))))))))))))))))))))))))))))
+         s)
+   | _ -> false)
+| _ -> false
+
+(** val lit_ok : char list -> bool **)
+
+let lit_ok s =
+  (||) (negb (Nat.eqb (lit_dots s) O))
+    (Nat.leb (length0 s) (S (S (S (S (S (S (S (S (S (S (S (S (S (S (S (S (S
+      (S (S (S (S (S (S (S (S (S (S (S (S (S (S (S (S (S (S (S (S (S (S (S (S
+      (S (S (S (S (S (S (S (S (S (S (S (S (S (S (S (S (S (S (S (S (S (S (S (S
+      (S (S (S (S (S (S (S (S (S (S (S (S (S (S (S (S (S (S (S (S (S (S (S (S
+      (S (S (S (S (S (S (S (S (S (S (S (S (S (S (S (S (S (S (S (S (S (S (S (S
+      (S (S (S (S (S (S (S (S (S (S (S (S (S (S (S (S (S (S (S (S (S (S (S (S
+      (S (S (S (S (S (S (S (S (S (S (S (S (S (S (S (S (S (S (S (S (S (S (S (S
+      (S (S (S (S (S (S (S (S (S (S (S (S (S (S (S (S (S (S (S (S (S (S (S (S
+      (S (S (S (S (S (S (S (S (S (S (S (S (S (S (S (S (S (S (S (S (S (S (S (S
+      (S (S (S (S (S (S (S (S (S (S (S (S (S (S (S (S (S (S (S (S (S (S (S (S
+      (S (S (S (S (S (S (S (S (S (S (S (S (S (S (S (S (S (S (S (S (S (S (S (S
+      (S (S (S (S (S (S (S (S (S (S (S (S (S (S (S (S (S (S (S (S (S (S (S (S
+      (S (S (S (S (S (S (S (S (S (S (S (S (S (S (S (S (S (S (S
+      O)))))))))))))))))))))))))))))))))))))))))))))))))))))))))))))))))))))))))))))))))))))))))))))))))))))))))))))))))))))))))))))))))))))))))))))))))))))))))))))))))))))))))))))))))))))))))))))))))))))))))))))))))))))))))))))))))))))))))))))))))))))))))))))))))))))))))))))))))))))))))))))))))))))))))))))
+
+(** val isint : sexpr -> bool **)
+
+let rec isint = function
+| ENum s -> int_lit s
+| ENeg a -> isint a
+| EAbs a -> isint a
+| EBin (o, a, b) ->
+  (match o with
+   | ODiv -> false
+   | OPow -> false
+   | _ -> (&&) (isint a) (isint b))
+| EMax (a, b) -> (&&) (isint a) (isint b)
+| EMin (a, b) -> (&&) (isint a) (isint b)
+| _ -> false
+
+(** val small_lit : sexpr -> bool **)
+
+let small_lit = function
+| ENum s -> (&&) (int_lit s) (small_int (int_val s))
 | _ -> false
 
 (** val py_ok : sexpr -> bool **)
 
 let rec py_ok = function
+| ENum s -> lit_ok s
+| ERead (_, _) -> true
 | ENeg a -> py_ok a
 | EAbs a -> py_ok a
 | EBin (o, a, b) ->
@@ -4416,14 +4501,15 @@ let rec py_ok = function
     (match o with
      | ODiv -> (||) ((||) (isnp a) (isnp b)) (nonzero_lit b)
      | OPow -> (||) (isnp a) (isnp b)
-     | _ -> true)
+     | _ -> negb ((&&) (isint a) (isint b)))
 | EMax (a, b) -> (&&) (py_ok a) (py_ok b)
 | EMin (a, b) -> (&&) (py_ok a) (py_ok b)
 | EIf (_, l, r, a, b) ->
-  (&&) ((&&) ((&&) (py_ok l) (py_ok r)) (py_ok a)) (py_ok b)
+  (&&) ((&&) ((&&) ((&&) (py_ok l) (py_ok r)) (py_ok a)) (py_ok b))
+    ((||) (negb ((&&) (isint l) (isint r)))
+      ((&&) (small_lit l) (small_lit r)))
 | ECall1 (_, a) -> py_ok a
 | ECall2 (_, a, b) -> (&&) (py_ok a) (py_ok b)
-| _ -> true
 
 (** val p_expr :
     (char list -> nat option) -> nat -> ctok list -> (sexpr * ctok list)
